@@ -105,6 +105,15 @@ func NewSystem(name string, nsess int) *SSystem {
 	// an attachment during which the active's stream handler is descheduled right after the first
 	// bytes of the response were flushed to the standby; it runs on at the next non-push event
 	s.evs = append(s.evs, core.Event{"op": "attach", "id": 0, "hold": 1})
+	// an attachment during which the active changes session 1 between taking the snapshot for the standby's
+	// post-attach full sync and stamping it (the change goes out on the already registered stream)
+	if !strings.HasPrefix(name, "link") && !strings.HasPrefix(name, "rnd") {
+		return s // the link-level events below only in the systems named link-* and in the random schedules
+	}
+	s.evs = append(s.evs, core.Event{"op": "attach", "id": 0, "midpush": 1})
+	// a link failure only the standby notices (the active's end of the old stream stays open), and the moment
+	// the active finally notices it
+	s.evs = append(s.evs, core.Event{"op": "disconnect", "id": 0, "half": 1}, core.Event{"op": "oldclose", "id": 0})
 	return s
 }
 
@@ -147,6 +156,14 @@ type inst struct {
 	cancelUp   context.CancelFunc
 	streamDone chan error
 
+	// change made by the active inside its snapshot handler (attach with mid), and what it was
+	gen     int // current stream (openStream)
+	midArm  func()
+	midDesc map[string]any
+	// streams whose standby end is gone but whose active end is still open (disconnect with half)
+	stale    []func()
+	handlers atomic.Int32 // stream handlers of the active that have not returned
+
 	// the active's stream handler held after its first flush (attach with hold)
 	holdArm  atomic.Bool
 	holdCh   chan struct{}
@@ -168,7 +185,7 @@ func newInst(s *SSystem) *inst {
 	in.standbyStore = ha.NewInMemorySessionStore()
 	ac := ha.DefaultSyncConfig()
 	ac.NodeID, ac.Role = "bng-active", ha.RoleActive
-	in.active = ha.NewHASyncer(ac, in.activeStore, zap.NewNop())
+	in.active = ha.NewHASyncer(ac, hookStore{in.activeStore, in}, zap.NewNop())
 	in.ln = newMemListener()
 	in.srv = &http.Server{Handler: in.holdable(in.active.VerifHandler())}
 	go in.srv.Serve(in.ln)
@@ -182,12 +199,35 @@ func newInst(s *SSystem) *inst {
 	return in
 }
 
+// hookStore is the active's session store; after a snapshot was copied it can run one action (the session
+// manager changing a session while the HA handler is still working on the snapshot).
+type hookStore struct {
+	*ha.InMemorySessionStore
+	in *inst
+}
+
+func (h hookStore) GetAllSessions() []ha.SessionState {
+	r := h.InMemorySessionStore.GetAllSessions()
+	h.in.mu.Lock()
+	f := h.in.midArm
+	h.in.midArm = nil
+	h.in.mu.Unlock()
+	if f != nil {
+		f()
+	}
+	return r
+}
+
 // holdable passes every request to the real handler; for the stream request it can hold the handler
 // goroutine right after its first Flush (the scheduler's freedom, made explicit).
 func (in *inst) holdable(h http.Handler) http.Handler {
 	return http.HandlerFunc(func(w http.ResponseWriter, r *http.Request) {
 		if f, ok := w.(http.Flusher); ok && r.URL.Path == "/ha/sessions/stream" && in.holdArm.CompareAndSwap(true, false) {
 			w = &holdWriter{ResponseWriter: w, f: f, in: in}
+		}
+		if r.URL.Path == "/ha/sessions/stream" {
+			in.handlers.Add(1)
+			defer in.handlers.Add(-1)
 		}
 		h.ServeHTTP(w, r)
 	})
@@ -231,7 +271,8 @@ func (in *inst) unhold() {
 
 // openStream is the network's handling of the standby's stream request.
 func (in *inst) openStream(req *http.Request) (*http.Response, error) {
-	ctx, cancel := context.WithCancel(req.Context())
+	// the upstream connection lives until the harness closes it (cut / oldclose), not until the standby gives up
+	ctx, cancel := context.WithCancel(context.WithoutCancel(req.Context()))
 	resp, err := realTransport.RoundTrip(req.WithContext(ctx))
 	if err != nil {
 		cancel()
@@ -240,10 +281,12 @@ func (in *inst) openStream(req *http.Request) (*http.Response, error) {
 	in.mu.Lock()
 	in.inbox, in.arrived, in.release, in.closed = nil, 0, 0, false
 	in.upstream, in.cancelUp = resp.Body, cancel
+	in.gen++
+	gen := in.gen
 	in.mu.Unlock()
 	up := resp.Body
-	go in.pump(up)
-	gb := &gatedBody{in: in}
+	go in.pump(up, gen)
+	gb := &gatedBody{in: in, gen: gen}
 	// like a real response body, a blocked Read ends when the request's context is cancelled
 	context.AfterFunc(req.Context(), func() { gb.Close() })
 	resp.Body = gb
@@ -251,7 +294,7 @@ func (in *inst) openStream(req *http.Request) (*http.Response, error) {
 }
 
 // pump receives the active's events as fast as they come and queues them.
-func (in *inst) pump(up io.Reader) {
+func (in *inst) pump(up io.Reader, gen int) {
 	r := bufio.NewReader(up)
 	var cur bytes.Buffer
 	for {
@@ -262,11 +305,13 @@ func (in *inst) pump(up io.Reader) {
 				ev := parseEvent(append([]byte{}, cur.Bytes()...))
 				cur.Reset()
 				in.mu.Lock()
-				in.inbox = append(in.inbox, ev)
-				if !ev.heartbeat {
-					in.arrived++
+				if gen == in.gen { // what still arrives on a stream the standby has given up is lost
+					in.inbox = append(in.inbox, ev)
+					if !ev.heartbeat {
+						in.arrived++
+					}
+					in.cond.Broadcast()
 				}
-				in.cond.Broadcast()
 				in.mu.Unlock()
 			}
 		}
@@ -297,6 +342,7 @@ func parseEvent(raw []byte) streamEvent {
 // gatedBody is what the standby's connectToStream reads from.
 type gatedBody struct {
 	in   *inst
+	gen  int // the stream this body belongs to; a body of an earlier stream is dead
 	rest []byte
 }
 
@@ -308,6 +354,10 @@ func (b *gatedBody) Read(p []byte) (int, error) {
 		return n, nil
 	}
 	in.mu.Lock()
+	if b.gen != in.gen {
+		in.mu.Unlock()
+		return 0, io.EOF
+	}
 	in.idle++ // everything handed over so far has been processed
 	in.idleAfterHand = true
 	in.cond.Broadcast()
@@ -338,6 +388,10 @@ func (b *gatedBody) Read(p []byte) (int, error) {
 func (b *gatedBody) Close() error {
 	in := b.in
 	in.mu.Lock()
+	if b.gen != in.gen { // closing the body of an earlier stream must not touch the current one
+		in.mu.Unlock()
+		return nil
+	}
 	in.closed = true
 	up, cancel := in.upstream, in.cancelUp
 	in.upstream, in.cancelUp = nil, nil
@@ -454,7 +508,8 @@ func (in *inst) push(kind ha.SyncMessageType, s *ha.SessionState) (clients int, 
 func (in *inst) Apply(ev core.Event) map[string]any {
 	op := ev["op"].(string)
 	id := toInt(ev["id"])
-	res := map[string]any{"did": false, "v": 0, "ok": true, "clients": 0, "arrived": false, "none": false, "kind": "", "mid": 0, "mv": 0, "dropped": 0}
+	res := map[string]any{"did": false, "v": 0, "ok": true, "clients": 0, "arrived": false, "none": false, "kind": "", "mid": 0, "mv": 0, "dropped": 0,
+		"middid": false, "midop": "", "midid": 0, "midv": 0}
 	if op != "add" && op != "update" && op != "delete" {
 		in.unhold()
 	}
@@ -503,7 +558,28 @@ func (in *inst) Apply(ev core.Event) map[string]any {
 			in.holdCh = make(chan struct{})
 			in.holdArm.Store(true)
 		}
+		if k := toInt(ev["midpush"]); k > 0 {
+			in.midDesc = nil
+			in.mu.Lock()
+			in.midArm = func() { in.midDesc = in.changeNow(k) }
+			in.mu.Unlock()
+		}
 		res["ok"] = in.attach()
+		in.mu.Lock()
+		in.midArm = nil
+		in.mu.Unlock()
+		if d := in.midDesc; d != nil {
+			in.midDesc = nil
+			// the change went out on the registered stream: wait until the network has it (as push does)
+			if res["ok"].(bool) && in.active.VerifSSEClients() > 0 {
+				if !in.waitFor(arrivalTimeout(), func() bool { return in.arrived >= 1 || in.closed }) {
+					missSeen.Store(true)
+				}
+			}
+			for kk, v := range d {
+				res[kk] = v
+			}
+		}
 		if toInt(ev["hold"]) == 1 {
 			if in.holdArm.CompareAndSwap(true, false) { // the request never reached the handler
 				close(in.holdCh)
@@ -531,7 +607,7 @@ func (in *inst) Apply(ev core.Event) map[string]any {
 			res["none"] = true
 			return res
 		}
-		res["dropped"] = in.cut()
+		res["dropped"] = in.cutHow(toInt(ev["half"]) == 1)
 		in.phase = "down"
 	case "deliver":
 		if in.phase != "streaming" {
@@ -553,10 +629,31 @@ func (in *inst) Apply(ev core.Event) map[string]any {
 		if !in.waitFor(20*time.Second, func() bool { return in.idle >= target || in.closed }) {
 			harnessFail(fmt.Sprintf("%s: the standby did not come back for more stream data after a delivery", in.s.name))
 		}
+	case "oldclose":
+		if len(in.stale) == 0 {
+			res["none"] = true
+			return res
+		}
+		in.closeStale()
 	default:
 		panic("unknown op " + op)
 	}
 	return res
+}
+
+// changeNow is the session manager of the active changing session k (add if absent, else update) and pushing
+// the change, from whatever goroutine calls it.
+func (in *inst) changeNow(k int) map[string]any {
+	cur, have := in.activeStore.GetSession(sessID(k))
+	kind, op, v := ha.SyncTypeAdd, "add", 1
+	if have {
+		kind, op, v = ha.SyncTypeUpdate, "update", 3-versionOf(cur)
+	}
+	s := mkSession(k, v)
+	in.activeStore.PutSession(s)
+	in.active.PushChange(kind, s)
+	in.active.VerifBroadcastPending()
+	return map[string]any{"middid": true, "midop": op, "midid": k, "midv": v}
 }
 
 // attach runs the standby's own connectToStream; it returns once the standby has consumed the
@@ -598,7 +695,10 @@ func (in *inst) attach() bool {
 }
 
 // cut severs the stream; events received from the active but not yet handed over are lost.
-func (in *inst) cut() int {
+func (in *inst) cut() int { return in.cutHow(false) }
+
+// cutHow severs the stream. half: only the standby's end goes away; the active's end is closed by "oldclose".
+func (in *inst) cutHow(half bool) int {
 	in.mu.Lock()
 	dropped := 0
 	for _, e := range in.inbox {
@@ -608,15 +708,23 @@ func (in *inst) cut() int {
 	}
 	in.inbox = nil
 	in.closed = true
+	in.gen++ // whatever still arrives on this stream is no longer for the standby
 	up, cancel := in.upstream, in.cancelUp
 	in.upstream, in.cancelUp = nil, nil
 	in.cond.Broadcast()
 	in.mu.Unlock()
-	if cancel != nil {
-		cancel()
+	closeActiveEnd := func() {
+		if cancel != nil {
+			cancel()
+		}
+		if up != nil {
+			up.Close()
+		}
 	}
-	if up != nil {
-		up.Close()
+	if half && up != nil {
+		in.stale = append(in.stale, closeActiveEnd)
+	} else {
+		closeActiveEnd()
 	}
 	if in.streamDone != nil {
 		select {
@@ -627,15 +735,33 @@ func (in *inst) cut() int {
 		in.streamDone = nil
 	}
 	// the active notices through its request context; wait until it has unregistered the client
+	in.waitHandlers(len(in.stale))
+	return dropped
+}
+
+// waitHandlers waits until exactly n stream handlers of the active are still running.
+func (in *inst) waitHandlers(n int) {
 	deadline := time.Now().Add(20 * time.Second)
-	for in.active.VerifSSEClients() > 0 {
+	for int(in.handlers.Load()) > n {
 		if time.Now().After(deadline) {
-			harnessFail(fmt.Sprintf("%s: the active still lists a stream client 20 s after the cut", in.s.name))
+			harnessFail(fmt.Sprintf("%s: %d stream handlers of the active still running 20 s after their streams were closed (want %d)", in.s.name, in.handlers.Load(), n))
 			break
 		}
 		time.Sleep(200 * time.Microsecond)
 	}
-	return dropped
+}
+
+// closeStale closes the active's end of every half-open stream and waits for those handlers to return.
+func (in *inst) closeStale() {
+	for _, f := range in.stale {
+		f()
+	}
+	in.stale = nil
+	live := 0
+	if in.phase == "streaming" {
+		live = 1
+	}
+	in.waitHandlers(live)
 }
 
 func (in *inst) recvTable() []int {
@@ -670,6 +796,7 @@ func (in *inst) Observe() map[string]any {
 var fpOpt = &core.FPOptions{SkipFields: map[string]bool{
 	"stats": true, "sequenceNum": true, "backoff": true, "Endpoint": true, "Addr": true, "ListenAddr": true,
 	"pendingChanges": true, "sseClients": true, "server": true,
+	"in": true, // hookStore's way back to the harness instance
 }}
 
 func (in *inst) Fingerprint() string {
@@ -683,7 +810,7 @@ func (in *inst) Fingerprint() string {
 	for _, k := range keys {
 		fmt.Fprintf(&sb, "%s=%v|", k, obs[k])
 	}
-	fmt.Fprintf(&sb, "queue=%v|held=%v%v|", in.queue(), in.held, in.heldPush)
+	fmt.Fprintf(&sb, "queue=%v|held=%v%v|stale=%d|", in.queue(), in.held, in.heldPush, len(in.stale))
 	sb.WriteString(core.Fingerprint(in.standby, fpOpt))
 	sb.WriteString("|")
 	sb.WriteString(core.Fingerprint(in.active, fpOpt))
@@ -694,6 +821,9 @@ func (in *inst) Probe() map[string]any { return nil }
 
 func (in *inst) Close() {
 	in.unhold()
+	if len(in.stale) > 0 {
+		in.closeStale()
+	}
 	if in.phase == "streaming" {
 		in.cut()
 	}
